@@ -84,6 +84,35 @@ let gen_newblock_agrees c b al (w : PoolConc.cworld) p : bool =
       | Ok (((((Some _, _), _), _), _), _) -> not requested
       | _ -> false)
 
+(* the GENERATED pvDeleteBlock(block, buffer, index) (Gen_MemPoolDel, incl. the generated pvMoveBufferToHead / pvDeleteBuffer it calls) against
+   PoolConc.pvDeleteBlock on the current world: the pool's buffer list lfull ++ lfree as a prev/next heap over addresses k * 2^24.
+   Compared: new head, which buffer (if any) went back to the manager, BufferBytes of the buffer, the index stored in the freed block,
+   and the whole doubly linked list afterwards. *)
+let gen_delblock_agrees c b al (w : PoolConc.cworld) p (bb, j) : bool =
+  let scale = zs "16777216" in
+  let adr id = BinInt.Z.mul id scale in
+  let ida a = BinInt.Z.div a scale in
+  let x = PoolConc.getp w p in
+  let h = PoolLinks.heap_of_lists (x.PoolConc.lfull @ x.PoolConc.lfree) [] in
+  let nx a = adr (h.PoolLinks.hnext (ida a)) and pv a = adr (h.PoolLinks.hprev (ida a)) in
+  let bf a = w.PoolConc.fb (ida a) and bcn a = w.PoolConc.fc (ida a) in
+  let blockaddr k i = Gen_MemPool.pvGetBlock b al (adr k) i in
+  let nfi a = let k = ida a in w.PoolConc.nx k (BinInt.Z.div (sub (sub a (adr k)) al) b) in
+  let w2 = PoolConc.pvDeleteBlock c w p (bb, j) in
+  let eqz x y = BinInt.Z.eqb x y in
+  match Gen_MemPoolDel.pvDeleteBlock3 c b al (adr (PoolConc.hd0 x.PoolConc.lfree)) (zi 0) bf bcn nx pv nfi (blockaddr bb j) (adr bb) j with
+  | Ok (((((((_, hd'), del), bf'), bc'), nx'), pv'), nfi') ->
+    let x2 = PoolConc.getp w2 p in
+    let returned_now = Stdlib.List.length w2.PoolConc.returned > Stdlib.List.length w.PoolConc.returned in
+    let l2 = x2.PoolConc.lfull @ x2.PoolConc.lfree in
+    let rec links prev = function
+      | [] -> true
+      | a :: t -> eqz (pv' (adr a)) (adr prev) && eqz (nx' (adr a)) (adr (match t with [] -> zi 0 | n :: _ -> n)) && links a t in
+    eqz hd' (adr (PoolConc.hd0 x2.PoolConc.lfree)) && eqz del (if returned_now then adr bb else zi 0)
+    && (returned_now || (eqz (bf' (adr bb)) (w2.PoolConc.fb bb) && eqz (bc' (adr bb)) (w2.PoolConc.fc bb)))
+    && eqz (nfi' (blockaddr bb j)) (w2.PoolConc.nx bb j) && links (zi 0) l2
+  | _ -> false
+
 let trace bc cf bs al res ops =
   if int_of_string bc = 1 then "n/a" else begin
     let c = zs bc and cfz = zs cf in
@@ -120,6 +149,7 @@ let trace bc cf bs al res ops =
            let k = if k >= 1000000000 then n - 1 else k mod n in
            let (bk, _) = Stdlib.List.nth live.(pi) k in
            live.(pi) <- remove_nth k live.(pi);
+           if not (gen_delblock_agrees c b (zs al) !w p bk) then ret := "-GEN!";   (* generated pvDeleteBlock vs PoolConc.pvDeleteBlock on this state *)
            w := PoolConc.coq_Deallocate c cfz uc !w p bk end
        | 'i' ->
          let parts = String.split_on_char ':' op in
@@ -191,12 +221,17 @@ let () = iter_lines (fun line ->
       (PoolLayout.alloc1 b a bg))
   | ["nbuf"; bc; _; b; a; begin0] ->
     let c = zs bc and b = zs b and a = zs a and bg = zs begin0 in
-    print_endline (oc_str (fun (((fb, bo), first), buffer) ->
-        (* pvDeleteBuffer line 649-650: begin = pvGetBlock(buffer, first) - beginOffset *)
-        let begin' = sub (Gen_MemPool.pvGetBlock b a buffer first) bo in
-        Printf.sprintf "%s %s %s %s %s %s" (sz (sub fb bg)) (sz bo) (sz first) (sz (sub buffer bg)) (sz (Gen_MemPool.pvGetBufferSize c b a))
-          (b2s (int_of_z (sub begin' bg) = 0)))
-      (PoolLayout.new_buffer_layout c b a bg))
+    let z _ = zi 0 in let unset _ = zi 77 in
+    (* the GENERATED pvNewBuffer as a whole (Gen_MemPoolNewBuf): buffer, first index, begin offset, BufferBytes, links, chain *)
+    print_endline (oc_str (fun (((((((buffer, bf), bcn), nx), pv), nfi), fbi), bo) ->
+        let first = fbi buffer and off = bo buffer in
+        let fb = Gen_MemPool.pvGetBlock b a buffer first in
+        let begin' = sub fb off in      (* pvDeleteBuffer line 649-650 *)
+        let chain = String.concat "," (Stdlib.List.map (fun j -> sz (nfi (Gen_MemPool.pvGetBlock b a buffer (add first (zi j))))) (Stdlib.List.init (int_of_z c) (fun j -> j))) in
+        Printf.sprintf "%s %s %s %s %s %s bb=%s,%s links=%s ch=%s" (sz (sub fb bg)) (sz off) (sz first) (sz (sub buffer bg)) (sz (Gen_MemPool.pvGetBufferSize c b a))
+          (b2s (int_of_z (sub begin' bg) = 0)) (sz (bf buffer)) (sz (bcn buffer))
+          (if int_of_z (nx buffer) = 0 && int_of_z (pv buffer) = 0 then "null" else "SET") chain)
+      (Gen_MemPoolNewBuf.pvNewBuffer c b a z z unset unset z z z bg))
   | ["fabmg"; n1; h1; n2; h2] ->
     let n1 = int_of_string n1 and h1 = int_of_string h1 and n2 = int_of_string n2 and h2 = int_of_string h2 in
     let l1 = range 1 n1 and l2 = range (n1 + 1) (n1 + n2) in
@@ -205,15 +240,19 @@ let () = iter_lines (fun line ->
   | ["fabmv"; n; h; k] ->
     let n = int_of_string n and h = int_of_string h and k = int_of_string k in
     let l = range 1 n in let fuel = nat_of_int (n + 3) in
-    (match PoolLinks.move_to_head (PoolLinks.heap_of_lists l []) (nth1 l h) (nth1 l k) with
-     | None -> print_endline "Stuck"
-     | Some (h', hd) -> print_endline (show_list h' hd fuel))
+    let hp = PoolLinks.heap_of_lists l [] in let z _ = zi 0 in
+    (* the GENERATED pvMoveBufferToHead (= PoolLinks.move_to_head by C09_generated_movetohead_is_model) *)
+    (match Gen_MemPoolDel.pvMoveBufferToHead (zi 8) (zi 8) (nth1 l h) (zi 0) z z hp.PoolLinks.hnext hp.PoolLinks.hprev z (nth1 l k) with
+     | Ok (((_, hd), nx'), pv') -> print_endline (show_list { PoolLinks.hprev = pv'; PoolLinks.hnext = nx' } hd fuel)
+     | _ -> print_endline "Stuck")
   | ["fabdel"; n; h; k] ->
     let n = int_of_string n and h = int_of_string h and k = int_of_string k in
     let l = range 1 n in let fuel = nat_of_int (n + 3) in
-    (match PoolLinks.delete_buffer (PoolLinks.heap_of_lists l []) (nth1 l h) (nth1 l k) with
-     | None -> print_endline "Stuck"
-     | Some h' -> print_endline (show_list h' (nth1 l h) fuel))
+    let hp = PoolLinks.heap_of_lists l [] in let z _ = zi 0 in
+    (* the GENERATED pvDeleteBuffer, list part (= PoolLinks.delete_buffer by C09_generated_deletebuffer_is_model) *)
+    (match Gen_MemPoolDel.pvDeleteBuffer (zi 8) (zi 8) (nth1 l h) (zi 0) z z hp.PoolLinks.hnext hp.PoolLinks.hprev z (nth1 l k) with
+     | Ok ((_, nx'), pv') -> print_endline (show_list { PoolLinks.hprev = pv'; PoolLinks.hnext = nx' } (nth1 l h) fuel)
+     | _ -> print_endline "Stuck")
   | "tr" :: bc :: cf :: bs :: al :: _ :: res :: ops -> print_endline (trace bc cf bs al res ops)
   | cmd :: bc :: cf :: bs :: al :: _ :: res :: ops when String.length cmd > 3 && String.sub cmd 0 3 = "tr@" -> print_endline (trace bc cf bs al res ops)
   | ["u32gp"; bc; bs; _; h] ->
